@@ -26,6 +26,14 @@
 //!   f_channels             a{fmt,n,x}             r items                 o{lens,fused,refs,rev,cn}
 //!   f_channels_mut         a{fmt,n,x,ys}          r val frame             o{seen}
 //!   f_channel              a{fmt,n,x,i,v}         r some|none (channel)   o{m,after (channel_mut), u,uafter (unchecked, i < n only)}
+//!   f_iter                 a{fmt,n,x,it,k,kb,op,j,v}  r items             o{pre,preb,len,sh,rest,cnt,after,cn}
+//!       it = val|ref|mut: channels() / channels_ref() / channels_mut() used AS AN ITERATOR: k times next() (`pre` = what
+//!       came out), kb times next_back() (`preb`; ref / mut only), then ONE call `op` with argument j on what is left:
+//!       nth(j) | skip(j) | step_by(j) | last | count | collect | rev | nth_back(j)  (the last two: ref / mut only).
+//!       r = the items that call yielded (adaptors are drained through `take(cap)`, so an iterator that never ends shows
+//!       up as a wrong result, not as a hang); `len` / `sh` = len() / size_hint() [lo, hi or -1] when fresh, after the
+//!       prefix and after the call (nth / nth_back; else -1); `rest` = what next() yields after nth / nth_back; `cnt` =
+//!       count()'s answer (else -1); through channels_mut every reference the call yields is overwritten with v: `after`.
 //!   to_frames              a{fmt,n,len,kind,route,x,w}   r some|none      o{flen,frames,same_ptr,after,back{k,len,same_ptr,v,h},live,bytes}
 //!   to_samples             a{fmt,n,len,kind,route,x,w}   r val            o{slen,samples,same_ptr,after,live,bytes}
 //!   inplace                a{fmt,n,op,la,lb,xa,xb,ys,ampf} r unit|panic   o{after,ca,cb}
@@ -242,6 +250,111 @@ enum Op {
     Channels,
     ChannelsMut,
     Channel,
+    Iter,
+}
+/// The calls `f_iter` makes on a partially consumed channel iterator.
+#[derive(Clone, Copy, PartialEq, Debug)]
+enum IOp {
+    Nth,
+    Skip,
+    StepBy,
+    Last,
+    Count,
+    Collect,
+    Rev,
+    NthBack,
+}
+/// Plain inputs and pre-allocated outputs of one `f_iter` event.
+struct IterIo<S> {
+    kind: u8, // 0 = channels(), 1 = channels_ref(), 2 = channels_mut()
+    op: IOp,
+    k: usize,
+    kb: usize,
+    j: usize,
+    cap: usize,
+    v: Option<S>,
+    // outputs
+    pre: Vec<S>,
+    preb: Vec<S>,
+    items: Vec<S>,
+    rest: Vec<S>,
+    after: Vec<S>,
+    lens: [i64; 3],
+    sh: [[i64; 2]; 3],
+    cnt: i64,
+}
+fn hint(h: (usize, Option<usize>)) -> [i64; 2] {
+    [h.0 as i64, h.1.map(|u| u as i64).unwrap_or(-1)]
+}
+/// Drives ONE channel iterator: `k` x next(), `kb` x next_back(), then the call under test.  `rd` reads an item,
+/// `wr` reads it and (channels_mut) overwrites the channel it refers to.  The three double-ended calls come in as
+/// closures, so that the by-value iterator -- which is not double-ended -- goes through the very same body.
+/// Everything that is drained is drained through `take(cap)`: cap > CHANNELS, so a correct iterator never notices.
+#[inline(always)]
+fn iter_drive<S: Copy, I: ExactSizeIterator>(
+    mut it: I,
+    io: &mut IterIo<S>,
+    rd: impl Fn(I::Item) -> S,
+    wr: impl Fn(I::Item) -> S,
+    next_back: impl Fn(&mut I) -> Option<I::Item>,
+    nth_back: impl Fn(&mut I, usize) -> Option<I::Item>,
+    rev_all: impl FnOnce(I, usize, &mut dyn FnMut(I::Item)),
+) {
+    let (cap, j) = (io.cap, io.j);
+    io.lens[0] = it.len() as i64;
+    io.sh[0] = hint(it.size_hint());
+    for _ in 0..io.k.min(cap) {
+        if let Some(r) = it.next() {
+            io.pre.push(rd(r));
+        }
+    }
+    for _ in 0..io.kb.min(cap) {
+        if let Some(r) = next_back(&mut it) {
+            io.preb.push(rd(r));
+        }
+    }
+    io.lens[1] = it.len() as i64;
+    io.sh[1] = hint(it.size_hint());
+    match io.op {
+        IOp::Nth | IOp::NthBack => {
+            let r = if io.op == IOp::Nth { it.nth(j) } else { nth_back(&mut it, j) };
+            if let Some(r) = r {
+                io.items.push(wr(r));
+            }
+            io.lens[2] = it.len() as i64;
+            io.sh[2] = hint(it.size_hint());
+            while io.rest.len() < cap {
+                match it.next() {
+                    Some(r) => io.rest.push(rd(r)),
+                    None => break,
+                }
+            }
+        }
+        IOp::Skip => {
+            for r in it.skip(j).take(cap) {
+                io.items.push(wr(r));
+            }
+        }
+        IOp::StepBy => {
+            for r in it.step_by(j).take(cap) {
+                io.items.push(wr(r));
+            }
+        }
+        IOp::Last => {
+            if let Some(r) = it.last() {
+                io.items.push(wr(r));
+            }
+        }
+        IOp::Count => io.cnt = it.count() as i64,
+        IOp::Collect => {
+            let items = &mut io.items;
+            it.take(cap).for_each(|r| items.push(wr(r)));
+        }
+        IOp::Rev => {
+            let items = &mut io.items;
+            rev_all(it, cap, &mut |r| items.push(wr(r)));
+        }
+    }
 }
 fn frame_op(ev: &str) -> Op {
     match ev {
@@ -259,6 +372,7 @@ fn frame_op(ev: &str) -> Op {
         "f_channels" => Op::Channels,
         "f_channels_mut" => Op::ChannelsMut,
         "f_channel" => Op::Channel,
+        "f_iter" => Op::Iter,
         _ => panic!("harness: unknown frame event {}", ev),
     }
 }
@@ -288,6 +402,7 @@ struct FrameIo<S: Sample> {
     nums: [usize; 3],
     opt: [Option<S>; 3],
     some: bool,
+    it: IterIo<S>,
 }
 
 /// The part instantiated per (format, width): calls dasp_frame on F and nothing else.
@@ -420,6 +535,36 @@ where
             fm.dump(&mut io.out);
             fu.dump(&mut io.out2);
         }
+        Op::Iter => {
+            let mut fx = fx;
+            let it = &mut io.it;
+            match it.kind {
+                0 => iter_drive(fx.channels(), it, |s| s, |s| s, |_| None, |_, _| None, |_, _, _| ()),
+                1 => iter_drive(
+                    fx.channels_ref(),
+                    it,
+                    |r| *r,
+                    |r| *r,
+                    |i| i.next_back(),
+                    |i, j| i.nth_back(j),
+                    |i, cap, f| i.rev().take(cap).for_each(f),
+                ),
+                _ => {
+                    let v = it.v.unwrap();
+                    iter_drive(
+                        fx.channels_mut(),
+                        it,
+                        |r| *r,
+                        |r| core::mem::replace(r, v),
+                        |i| i.next_back(),
+                        |i, j| i.nth_back(j),
+                        |i, cap, f| i.rev().take(cap).for_each(f),
+                    )
+                }
+            }
+            fx.dump(&mut it.after);
+            io.nums[0] = F::CHANNELS;
+        }
     }
 }
 
@@ -521,6 +666,37 @@ where
         nums: [0; 3],
         opt: [None; 3],
         some: false,
+        it: IterIo {
+            kind: match a["it"].as_str() {
+                Some("ref") => 1,
+                Some("mut") => 2,
+                _ => 0,
+            },
+            op: match a["op"].as_str() {
+                Some("nth") => IOp::Nth,
+                Some("skip") => IOp::Skip,
+                Some("step_by") => IOp::StepBy,
+                Some("last") => IOp::Last,
+                Some("count") => IOp::Count,
+                Some("rev") => IOp::Rev,
+                Some("nth_back") => IOp::NthBack,
+                Some("collect") | None => IOp::Collect,
+                Some(o) => panic!("harness: unknown iterator call {}", o),
+            },
+            k: a["k"].as_u64().unwrap_or(0) as usize,
+            kb: a["kb"].as_u64().unwrap_or(0) as usize,
+            j: a["j"].as_u64().unwrap_or(0) as usize,
+            cap,
+            v: if op == Op::Iter { Some(S::dec(&a["v"])) } else { None },
+            pre: Vec::with_capacity(cap),
+            preb: Vec::with_capacity(cap),
+            items: Vec::with_capacity(cap),
+            rest: Vec::with_capacity(cap),
+            after: Vec::with_capacity(cap),
+            lens: [-1; 3],
+            sh: [[-1; 2]; 3],
+            cnt: -1,
+        },
     };
     let f: fn(Op, &mut FrameIo<S>) = S::pick_frame(n);
     let (r, h, _) = measured(|| catch(|| f(op, &mut io)));
@@ -583,6 +759,22 @@ where
             o["uafter"] = enc_vec(&io.out2);
             if ok {
                 r_opt(io.opt[0].map(|s| s.enc()))
+            } else {
+                r_panic()
+            }
+        }
+        Op::Iter => {
+            let it = &io.it;
+            o["pre"] = enc_vec(&it.pre);
+            o["preb"] = enc_vec(&it.preb);
+            o["len"] = json!(it.lens);
+            o["sh"] = json!(it.sh);
+            o["rest"] = enc_vec(&it.rest);
+            o["cnt"] = json!(it.cnt);
+            o["after"] = enc_vec(&it.after);
+            o["cn"] = json!(io.nums[0]);
+            if ok {
+                r_items(enc_vec(&it.items))
             } else {
                 r_panic()
             }
@@ -1282,6 +1474,7 @@ fn gen(seed: u64, size: &str, path: &str) {
     let thorough = size == "thorough";
     let reps = if thorough { 12 } else { 2 };
     let sample_reps = if thorough { 1500 } else { 40 };
+    let iter_reps = if thorough { 4 } else { 1 };
     let mut execs: Vec<Vec<Value>> = Vec::new();
     let reset = |comp: &str, f: &Fm, n: usize, tag: &str| json!({"ev":"reset","comp":comp,"cfg":{"src":"rand","fmt":f.name,"n":n,"tag":tag}});
     // HX_PART=frame|slice restricts the file to one property's stimuli (default: both)
@@ -1347,6 +1540,53 @@ fn gen(seed: u64, size: &str, path: &str) {
                 let x = frame(&mut rng);
                 for i in [rng.below(nn as u64) as i64, nn as i64 - 1, nn as i64, nn as i64 + 1 + rng.below(100) as i64, -1] {
                     ex.push(json!({"ev":"f_channel","a":{"fmt":f.name,"n":n,"x":vjs(f,&x),"i":i,"v":vj(f,rand_sample(&mut rng,f))}}));
+                }
+            }
+            // the channel iterators used as iterators: nth / skip / step_by / last / count / collect (and rev / nth_back
+            // from channels_ref / channels_mut) on an iterator that has ALREADY been advanced, from both ends where it has two
+            for _ in 0..iter_reps {
+                for kind in ["val", "ref", "mut"] {
+                    let de = kind != "val";
+                    let mut push = |rng: &mut Rng, k: usize, kb: usize, op: &str, j: usize| {
+                        let x = frame(rng);
+                        ex.push(json!({"ev":"f_iter","a":{"fmt":f.name,"n":n,"x":vjs(f,&x),"it":kind,"k":k,"kb":kb,"op":op,"j":j,
+                                                           "v":vj(f,rand_sample(rng,f))}}));
+                    };
+                    // (k, kb): at least one next() first -- k in 1..=N --, then next_back() calls that may or may not fit
+                    let adv = |rng: &mut Rng| -> (usize, usize, usize) {
+                        let k = 1 + rng.below(nn as u64) as usize;
+                        let kb = if de && rng.chance(1, 2) { rng.below((nn - k) as u64 + 2) as usize } else { 0 };
+                        (k, kb, nn.saturating_sub(k + kb)) // .2 = how many items are left
+                    };
+                    let (k, kb, left) = adv(&mut rng);
+                    let j = rng.below(left.max(1) as u64) as usize; // inside what is left (when anything is)
+                    push(&mut rng, k, kb, "nth", j);
+                    let (k, kb, left) = adv(&mut rng);
+                    let j = left + rng.below(3) as usize; // just beyond
+                    push(&mut rng, k, kb, "nth", j);
+                    if !de || thorough {
+                        let j = rng.below(nn as u64 + 1) as usize; // fresh iterator
+                        push(&mut rng, 0, 0, "nth", j);
+                    }
+                    let (k, kb, left) = adv(&mut rng);
+                    let j = rng.below(left as u64 + 2) as usize;
+                    push(&mut rng, k, kb, "skip", j);
+                    push(&mut rng, 0, 0, "step_by", 2);
+                    let (k, kb, left) = adv(&mut rng);
+                    let j = 1 + rng.below(left.clamp(1, 5) as u64) as usize;
+                    push(&mut rng, k, kb, "step_by", j);
+                    // (channels_ref / channels_mut wrap core's slice iterators: one of the three per repetition)
+                    let finals: &[&str] = if de && !thorough { &["last", "count", "collect"][rng.below(3) as usize..][..1] } else { &["last", "count", "collect"] };
+                    for op in finals {
+                        let (k, kb, _) = adv(&mut rng);
+                        push(&mut rng, k, kb, op, 0);
+                    }
+                    if de {
+                        let (k, kb, left) = adv(&mut rng);
+                        push(&mut rng, k, kb, "rev", 0);
+                        let j = rng.below(left as u64 + 2) as usize;
+                        push(&mut rng, k, kb, "nth_back", j);
+                    }
                 }
             }
             // short iterators of EVERY length < N, and some that are long enough
